@@ -69,7 +69,15 @@ def run(ctx):
         if thorough:
             add('trickle', 'trickle:%s:50' % seeds[0].hex(), reqs[0])
         # prefix stripping through the server's handler
-        for pat, path in (('/api/*', '/api/v1/items'), ('/api*', '/apiary'), ('/*', '/x'), ('/a/b/*', '/a/b/'), ('/é/*', '/é/z')):
+        handler_cases = [('/api/*', '/api/v1/items'), ('/api*', '/apiary'), ('/*', '/x'), ('/a/b/*', '/a/b/'), ('/é/*', '/é/z'),
+                         # the literal prefix occurring again right after itself must be stripped once only
+                         ('/api/*', '/api//api/users'), ('/docs*', '/docs/docs/intro.html'), ('/*', '///x'), ('/*', '//x'),
+                         ('/a*', '/aaa'), ('/ab*', '/ababab/c'), ('/api/*', '/api/api/users')]
+        for _ in range(40 if thorough else 8):
+            pre = rng.choice(['/', '/p', '/p/', '/ab', '/é/', '/x/y/'])
+            rest = rng.choice(['', 'q', '/q', pre, pre.lstrip('/'), pre + pre, '/' + pre, 'z/' + pre])
+            handler_cases.append((pre + '*', pre + rest))
+        for pat, path in handler_cases:
             req = ('GET %s?q=1 HTTP/1.1\r\nHost: h\r\nConnection: close\r\n\r\n' % path).encode()
             lines.append('proxy_handler %s send:%s:close %s' % (hx(pat), seeds[0].hex(), hx(req)))
             meta.append(('handler', pat, path))
